@@ -33,8 +33,22 @@ import (
 	"github.com/thought-machine/please/src/cmap"
 )
 
-const blockGrace = 3 * time.Millisecond // a sequential GetOrSet that has released the limiter (it is about to wait) and has not returned by then is "blocked"
-const wakeTimeout = 10 * time.Second    // a waiter whose key has been added must have proceeded by then
+const blockGrace = 3 * time.Millisecond  // a sequential GetOrSet that has released the limiter (it is about to wait) and has not returned by then is "blocked"
+const wakeTimeoutLong = 10 * time.Second // a waiter whose key has been added must have proceeded by then
+
+// wakeTimeout: generous while everything wakes up as it should (a busy machine must not produce a
+// false alarm); once waiters have been lost three times the remaining checks only wait briefly, so
+// that a broken map is reported with its failing inputs instead of running into the harness timeout.
+var lostWaits atomic.Int64
+
+func wakeTimeout() time.Duration {
+	if lostWaits.Load() >= 3 {
+		return 150 * time.Millisecond
+	}
+	return wakeTimeoutLong
+}
+
+func lost() { lostWaits.Add(1) }
 
 // ---------------------------------------------------------------------------------------------
 // operations and observations
@@ -447,7 +461,7 @@ func runErrSeq(c *lib.Ctx, sc *SeqCase) {
 					run.pending = append(run.pending, done)
 					run.keys = append(run.keys, o.K)
 				}
-			case <-time.After(wakeTimeout):
+			case <-time.After(wakeTimeout()):
 				c.Fail("getorset-hangs", fmt.Sprintf("GetOrSet(%d) neither returned nor started to wait", o.K), sc)
 				r.Blocked = true
 			}
@@ -462,7 +476,8 @@ func runErrSeq(c *lib.Ctx, sc *SeqCase) {
 		c.Oracle()
 		select {
 		case <-done:
-		case <-time.After(wakeTimeout):
+		case <-time.After(wakeTimeout()):
+			lost()
 			c.Fail("wakeup-lost", fmt.Sprintf("GetOrSet(%d) was waiting; the key has been set and the waiter did not return", run.keys[i]), sc)
 		}
 	}
@@ -734,7 +749,7 @@ func runConc(cc *ConcCase, seed uint64) (hist []HOp, fails [][2]string) {
 		}
 		return false
 	}
-	deadline := time.Now().Add(wakeTimeout)
+	deadline := time.Now().Add(wakeTimeout())
 	for iter := 0; ; iter++ {
 		quiet := true
 		var stuck []int
@@ -760,10 +775,11 @@ func runConc(cc *ConcCase, seed uint64) (hist []HOp, fails [][2]string) {
 				cleanups++
 				h, _ := do(n, Op{Op: "set", K: k, V: 9000 + cleanups})
 				record(h)
-				deadline = time.Now().Add(wakeTimeout)
+				deadline = time.Now().Add(wakeTimeout())
 			}
 		}
 		if iter%64 == 63 && time.Now().After(deadline) {
+			lost()
 			for g := 0; g < n; g++ {
 				if k := parked[g].Load(); k != 0 && !done[g].Load() {
 					failf("wakeup-lost", "goroutine %d waits on the channel of key %d; the key has been added and the goroutine was not released", g, k-1)
@@ -1128,7 +1144,8 @@ func stampedeWait(c *lib.Ctx, r *lib.Rng) {
 	go func() { wg.Wait(); close(fin) }()
 	select {
 	case <-fin:
-	case <-time.After(wakeTimeout):
+	case <-time.After(wakeTimeout()):
+		lost()
 		c.Fail("wakeup-lost", "the key was added and not every waiter was released", in)
 	}
 }
@@ -1168,7 +1185,8 @@ func stampedeGetOrSet(c *lib.Ctx, r *lib.Rng) {
 	c.Oracle()
 	select {
 	case <-fin:
-	case <-time.After(wakeTimeout):
+	case <-time.After(wakeTimeout()):
+		lost()
 		c.Fail("wakeup-lost", "GetOrSet: the first caller has set the key and not every waiting caller returned", in)
 		return
 	}
@@ -1292,7 +1310,7 @@ func main() {
 		// 3. concurrent histories
 		nconc, nlin := c.Scale(1500, 60000), c.Scale(140, 6000)
 		emitted := 0
-		for i := 0; i < nconc; i++ {
+		for i := 0; i < nconc && lostWaits.Load() < 20; i++ {
 			r := c.Rng.Fork()
 			cc := genConc(r)
 			order := checkConc(c, cc, r.U64())
@@ -1332,11 +1350,14 @@ func main() {
 		}
 		t2 := time.Now()
 		// 4. stampedes
-		for i, n := 0, c.Scale(1500, 30000); i < n; i++ {
+		for i, n := 0, c.Scale(1500, 30000); i < n && lostWaits.Load() < 30; i++ {
 			stampedeWait(c, c.Rng.Fork())
 			stampedeGetOrSet(c, c.Rng.Fork())
 		}
 		c.Note("wall: concurrent histories %s, stampedes %s", t2.Sub(t1).Round(time.Millisecond), time.Since(t2).Round(time.Millisecond))
+		if n := lostWaits.Load(); n > 0 {
+			c.Note("%d waiters were never released; the concurrent streams were cut short after 20/30 of them", n)
+		}
 		c.Note("GOMAXPROCS=%d; blockGrace=%s; linearisations replayed through the Coq model and specification: %d", runtime.GOMAXPROCS(0), blockGrace, emitted)
 	})
 }
